@@ -30,17 +30,17 @@ def r1_weighted_tensor(ctx):
     if cls not in ix.classes:
         raise AnalysisError("C06.R1", "anchor vanished: WeightedTensor")
     # (a) wsum / weighted_value
+    from ..astq import Canon
     ws = ix.func(WT, "WeightedTensor.wsum", "C06.R1")
     src = U(ws.node)
-    prod = [s for s in statements(ws.node) if isinstance(s, ast.Assign) and isinstance(s.value, ast.BinOp) and isinstance(s.value.op, ast.Mult) and "weight" in U(s.value)]
-    ok = bool(prod) and any("self.filled(0)" in U(p.value) for p in prod)
-    ctx.check(ok, "C06.R1", ws, prod[0] if prod else ws.node, "weights multiply self.filled(0)", "wsum multiplies the weights with unfilled values: a NaN / inf at a masked position gives NaN (0 * inf) in the sum")
-    rets = [s for s in statements(ws.node) if isinstance(s, ast.Return)]
-    ok = bool(rets) and "masked_fill(sum_weights == 0, fill_value)" in U(rets[0]) and "weight.sum(**kws)" in src and "weighted_values.sum(**kws)" in src
-    ctx.check(ok, "C06.R1", ws, rets[0] if rets else ws.node, "empty aggregates filled; value-sum and weight-sum over the same axes", "wsum no longer fills empty aggregates / sums values and weights over the same axes",
-              construct="empty aggregates")
-    ok = "weight = torch.ones_like(self.value, dtype=torch.bool)" in src
-    ctx.check(ok, "C06.R1", ws, ws.node, "no weights = all ones", "an unweighted tensor is no longer summed with unit weights", construct="default weights")
+    cw = Canon(ws.node)
+    rets = cw.returns()
+    rtxt = rets[0] if rets else ""
+    ctx.form("C06.R1", ws, ws.node, rtxt, {"((weight * $0.filled(0)).sum(**$kwargs).masked_fill(weight.sum(**$kwargs) == 0, $k0), weight.sum(**$kwargs))"},
+             ["$0.filled(0)", "masked_fill(", ".sum(**$kwargs) == 0"], "weights multiply self.filled(0); empty aggregates filled; value-sum and weight-sum over the same axes",
+             "wsum multiplies the weights with unfilled values (a NaN / inf at a masked position gives NaN in the sum) or no longer fills empty aggregates", construct="weighted sum")
+    dflt = [st for st in statements(ws.node) if isinstance(st, ast.Assign) and isinstance(st.value, ast.Call) and U(st.value.func) == "torch.ones_like" and U(st.value.args[0]) == "self.value"]
+    ctx.check(bool(dflt), "C06.R1", ws, dflt[0] if dflt else ws.node, "no weights = all ones", "an unweighted tensor is no longer summed with unit weights", construct="default weights")
     wv = ix.func(WT, "WeightedTensor.weighted_value", "C06.R1")
     ok = "self.weight * self.filled(0)" in U(wv.node) or "self.filled(0) * self.weight" in U(wv.node)
     ctx.check(ok, "C06.R1", wv, wv.node, "weighted_value = weight * filled(0)", "weighted_value multiplies the weight with unfilled values (0 * NaN = NaN at masked positions)")
@@ -253,4 +253,6 @@ VARIANTS = [
         )""", "C06.R3"),
     V("count-model-entries", GAU, "\"n_obs\": LinkedVariable(\n                    Sqr(\"y\").then(wsum_dim_return_sum_of_weights_only)", "\"n_obs\": LinkedVariable(\n                    Sqr(\"model\").then(wsum_dim_return_sum_of_weights_only)", "C06.R4"),
     V("silent-mask-from-y", GAU, "s2 = sum_dim(WeightedTensor(model_x_model, y_x_model.weight))", "s2 = sum_dim(WeightedTensor(model_x_model, state[\"y\"].weight))", None),
+    V("silent-rename-wsum-locals", "src/leaspy/utils/weighted_tensor/_weighted_tensor.py", "        weighted_values = weight * self.filled(0)\n        weighted_sum = weighted_values.sum(**kws)\n        sum_weights = weight.sum(**kws)\n        return weighted_sum.masked_fill(sum_weights == 0, fill_value), sum_weights",
+      "        wv = weight * self.filled(0)\n        total = wv.sum(**kws)\n        n_w = weight.sum(**kws)\n        return total.masked_fill(n_w == 0, fill_value), n_w", None),
 ]
